@@ -60,7 +60,9 @@ class Error(Exception):
 
 
 def pack(fmt, obj):
-    formatstring, names, fixes = getformat(fmt, keep_pad_byte=True)
+    # pad bytes take no value: their names must not be looked up in obj (and
+    # the parsed format is cached per fmt, shared with unpack and calcsize)
+    formatstring, names, fixes = getformat(fmt)
     elements = []
     if not isinstance(obj, dict):
         obj = obj.__dict__
